@@ -6,6 +6,7 @@ import (
 	"go/token"
 	"go/types"
 	"sort"
+	"strings"
 
 	"golang.org/x/tools/go/ssa"
 
@@ -88,6 +89,46 @@ func runC15(c *Ctx) {
 		if n < 2 {
 			c.undecided("sends on Broadcaster.confChan | floor", "", fmt.Sprintf("found %d sends on confChan, need 2", n))
 		}
+	})
+
+	c.rule("C15.B3", "the handler is never held up by a caller that has gone: the verdict of a broadcast is sent back on the request's errChan with a plain send, after a caller may already have returned on the quit arm of its select; so every channel that is put into broadcastReq.errChan is made with room for that one verdict (capacity >= 1) - with an unbuffered channel the handler goroutine parks on the reply for good, no later transaction is broadcast or rebroadcast, and Stop waits for it for ever", func() {
+		ef := c.field("pushtx", "broadcastReq", "errChan")
+		n := 0
+		for _, fn := range c.P.Funcs {
+			if fn.Pkg == nil || !strings.HasSuffix(fn.Pkg.Pkg.Path(), "/pushtx") {
+				continue
+			}
+			for _, st := range find(fn, storeToField(ef)) {
+				n++
+				v := st.(*ssa.Store).Val
+				okCap := false
+				why := "the channel stored in broadcastReq.errChan is not made here"
+				if ir.DerivesFrom(v, func(x ssa.Value) bool {
+					mk, ok := x.(*ssa.MakeChan)
+					if !ok {
+						return false
+					}
+					k, isC := ir.ConstInt(mk.Size)
+					if isC && k >= 1 {
+						okCap = true
+					} else {
+						why = "the reply channel is made without room for the verdict (capacity 0 or not a constant)"
+					}
+					return true
+				}) && okCap {
+					c.pass("reply channel has room for the verdict | "+c.nm(fn), c.at(st), "make(chan error, n) with n >= 1", c.at(st))
+					continue
+				}
+				c.fail("reply channel has room for the verdict | "+c.nm(fn), c.at(st), why+": the handler's reply at the end of a broadcast blocks once the caller has left on quit", c.at(st))
+			}
+		}
+		if n < 1 {
+			c.undecided("stores to broadcastReq.errChan | floor", "", "found no store to broadcastReq.errChan, need 1")
+		}
+		// the reply itself is a plain send in the handler (that is what needs the room)
+		fn := c.fn(fnBHandler)
+		replies := find(fn, sendOn(loadsField(ef)))
+		c.verdict(len(replies) >= 1, c.nm(fn)+" | replies on req.errChan", c.P.Pos(fn.Pos()), "req.errChan <- err", "no reply on req.errChan found in the handler", c.ats(replies)...)
 	})
 
 	c.rule("C15.B2", "a confirmation takes effect before MarkAsConfirmed returns: confChan is unbuffered (the hand-off is a rendezvous with the handler) and the handler removes the transaction from the pending set in the very arm that receives it; with a buffered channel a rebroadcast started after MarkAsConfirmed returned could still contain the transaction", func() {
